@@ -2329,7 +2329,10 @@ class RawAlgorithmsMixIn:
         # print tmp1
         # print 'tmp1[:,:,:rank,:rank]=',tmp1[:,:,:rank,:rank]
         tmp2[...] = 0
-        cls._solve(R_data[:,:,:rank,:rank], cls._transpose(tmp1[:,:,:rank,:rank]), out = tmp2[:,:,:rank,:rank])
+        # the rank of the zero'th coefficient may differ between directions
+        for p in range(P):
+            rank = rank_list[p]
+            cls._solve(R_data[:,p:p+1,:rank,:rank], cls._transpose(tmp1[:,p:p+1,:rank,:rank]), out = tmp2[:,p:p+1,:rank,:rank])
         tmp2 = tmp2.transpose((0,1,3,2))
 
         # print 'Rbar_data=',Rbar_data[...]
